@@ -104,7 +104,7 @@ std::vector<double> GenerateStochasticDistribution (std::vector<double> mesh_x, 
       }
     else if (mesh_x[i]<100)
       {
-      mesh_x_sto[i] = std::poisson_distribution<int>(mesh_x[i])(rng);
+      mesh_x_sto[i] = std::poisson_distribution<long long>(mesh_x[i])(rng);
       }
     else
       {
@@ -289,7 +289,7 @@ extern "C" int engineexport_initialize_grid (
       mesh_x = SpeciesFirstToMeshFirstArray(MkVec<double, double>(mesh_state, n_meshes*n_species), n_species, n_meshes);
       for(size_t i=0; i<mesh_x.size(); i++)
         {
-        mesh_x[i] = (mesh_x[i] > 0) ? static_cast<double>(std::poisson_distribution<int>(mesh_x[i])(rng)) : 0.0; // the distribution requires a strictly positive mean
+        mesh_x[i] = (mesh_x[i] > 0) ? static_cast<double>(std::poisson_distribution<long long>(mesh_x[i])(rng)) : 0.0; // the distribution requires a strictly positive mean
         }
       }
     else if(CompareStr(init_state_processing, "floor"))
@@ -420,7 +420,7 @@ extern "C" int engineexport_initialize_graph (
       mesh_x = SpeciesFirstToMeshFirstArray(MkVec<double, double>(mesh_state, n_meshes*n_species), n_species, n_meshes);
       for(size_t i=0; i<mesh_x.size(); i++)
         {
-        mesh_x[i] = (mesh_x[i] > 0) ? static_cast<double>(std::poisson_distribution<int>(mesh_x[i])(rng)) : 0.0; // the distribution requires a strictly positive mean
+        mesh_x[i] = (mesh_x[i] > 0) ? static_cast<double>(std::poisson_distribution<long long>(mesh_x[i])(rng)) : 0.0; // the distribution requires a strictly positive mean
         }
       }
     else if(CompareStr(init_state_processing, "floor"))
